@@ -491,7 +491,7 @@ def run_all(tier, seed, n=None):
     runs = []
     for cfg, u, ops in corpus_cases():
         runs.append(CaseRun(xo, cfg, u, _newtag()).run_fixed(ops))
-    ncases, nops = (150, 40) if tier == "quick" else (2500, 70)
+    ncases, nops = (150, 40) if tier == "quick" else (8000, 70)
     if n:
         ncases = n
     for _ in range(ncases):
